@@ -71,7 +71,7 @@ EMB = {
     'stmt':              Emb([], None, ('body',), 'one', 'pass'),
     'exec':              Emb([], None, (), 'node', 'pass'),
 }
-LISTFIELD = {'_Import_names': 'names', '_ImportFrom_names': 'names', '_withitems': 'items', '_ExceptHandlers': 'handlers', '_comprehensions': 'generators',
+LISTFIELD = {'_arglikes': 'arglikes', '_Import_names': 'names', '_ImportFrom_names': 'names', '_withitems': 'items', '_ExceptHandlers': 'handlers', '_comprehensions': 'generators',
              '_comprehension_ifs': 'ifs', '_decorator_list': 'decorator_list', '_type_params': 'type_params'}
 OPMODES = {'operator': ('(_\n', '\n_)', lambda t: t.body[0].value.op, ast.BinOp), 'boolop': ('(_\n', '\n_)', lambda t: t.body[0].value.op, ast.BoolOp),
            'unaryop': ('(\n', '\n_)', lambda t: t.body[0].value.op, ast.UnaryOp), 'cmpop': ('(_\n', '\n_)', lambda t: t.body[0].value.ops[0], ast.Compare)}
@@ -129,6 +129,19 @@ def judge(mode, src):
         return ('invalid', 'brackets of the fragment are not balanced')
     if not ts and mode in LISTFIELD:
         return ('valid', [], 0)
+    if mode == '_arglikes':
+        # positional and keyword arguments of a call, merged in SOURCE order (two AST lists, one text)
+        try:
+            t1 = ast.parse('_(\n' + src + '\n)')
+        except SyntaxError as ex:
+            return ('invalid', f'embedding does not parse: {ex.msg}')
+        call = t1.body[0].value if len(t1.body) == 1 and isinstance(t1.body[0], ast.Expr) else None
+        if not isinstance(call, ast.Call) or not isinstance(call.func, ast.Name) or call.end_lineno != src.count('\n') + 3 or call.lineno != 1:
+            return ('invalid', 'the fragment changed the construct around it')
+        exp = sorted(call.args + call.keywords, key=lambda n: (n.lineno, n.col_offset))
+        if exp and (exp[0].lineno <= 1 or exp[-1].end_lineno > src.count('\n') + 2):
+            return ('invalid', 'the element extends into the wrapper (it uses the delimiters of the embedding as its own)')
+        return ('valid', exp, 1)
     alts = EMB[mode] if isinstance(EMB[mode], list) else [EMB[mode]]
     why = None
     for e in alts:
@@ -276,6 +289,8 @@ HOSTILE = {
     'expr_all': ['*a\n ,', '*ab\n  ,', '*a  # c\n ,', '*é\n  ,', '*a,', '*a\n,', '*a', 'a:b', 'a:b:c, d', 'a, b', 'a,\nb', '*a, *b', '*a\n, b', 'x for x in y', '', 'a := b', 'yield', '*not a', '*a\n  ,  # c',
                  '*(a)\n ,', '*a \\\n ,', ')+(', 'a][b', 'a)(b', ':', '*a:b'],
     'expr_arglike': ['*a', '*not a', 'a, b', 'a=b', '**a', 'x for x in y', ')(', 'a)(b', '', 'a:b'],
+    '_arglikes': ['x=1,\n*b', '  a,\nb, c=1', '        k=1,\n    *s,\n**kw', 'a, b', 'a, *b, k=1, **d', '', 'a)(b', 'a for x in y', '(a for x in y), b', 'k=1, *a', 'a,', '*a, b=c, *d', 'a=1, b', 'a,\n      k=v,\n  *c,\nj=w',
+                  '**d, k=1', 'a\n,\nk=1\n,', ')(', 'a, # c\n b=1 # d\n', 'é=1,\n*ü'],
     '_arglike': ['a for x in y', '(a for x in y)', '*a', '**k', 'k=v', 'a, b', 'a=b, c', '', 'a)(b', ')(', '*not a', 'k=x for x in y', 'a := b', 'yield', '(yield)', 'a,', 'k=v,'],
     'keyword': ['a=1', 'a=1, b=2', '**k', 'a', 'a=1)(b=2', 'a=1), _(b=2', '', 'a=(yield)', 'a = 1,', 'a=1 # c', '*a', 'a==1', 'a=x for x in y'],
     'arguments': [')->(', 'a)->(b', 'a, b=1, /, c, *, d, **e', '', '*', 'a=', 'a: int=3', '*a: *b', '): pass\ndef g(', 'a,', '/', 'self, /,', '**k,'],
@@ -558,8 +573,21 @@ def stage_fragments(ctx: Ctx, progs):
             pool[m] += l
     per_mode = ctx.scale(45, 600)
     pool['_arglike'] = pool.get('expr_arglike', [])[::2] + pool.get('keyword', [])[::2]
+    pool['_arglikes'] = []
+    pos_pool = [x for x in pool.get('expr_arglike', []) if '\n' not in x and not x.lstrip().startswith('*')][:40] or ['a', 'b.c', 'f(x)']
+    kw_pool = [x for x in pool.get('keyword', []) if '\n' not in x and not x.lstrip().startswith('**')][:40] or ['k=v', 'j=1']
+    for _ in range(ctx.scale(40, 400)):
+        parts = [rng.choice(pos_pool) for _ in range(rng.randrange(0, 3))] + [rng.choice(kw_pool) for _ in range(rng.randrange(0, 3))]
+        if rng.random() < 0.5:
+            parts.append('*' + rng.choice(['st', 'rest.x', 'g()']))
+        if rng.random() < 0.3:
+            parts.append(rng.choice(kw_pool))
+        if rng.random() < 0.3:
+            parts.append('**kw')
+        # every element on its own line, each at a random indentation (a later line may start left of an earlier one)
+        pool['_arglikes'].append(',\n'.join(' ' * rng.randrange(0, 9) + p_ for p_ in parts) if rng.random() < 0.7 else ', '.join(parts))
     pool['expr_all'] = pool.get('expr', [])[::3] + pool.get('expr_slice', [])[::2] + pool.get('expr_arglike', [])[::3]
-    for mode in EMB:
+    for mode in list(EMB) + ['_arglikes']:
         if mode == 'exec':
             continue
         cands = list(dict.fromkeys(pool.get(mode, [])))
